@@ -152,7 +152,8 @@ class StorageClientConfig:
         :param _Config config: The loaded Tahoe-LAFS node configuration.
         """
         ps = config.get_config("client", "peers.preferred", "").split(",")
-        preferred_peers = tuple([p.strip() for p in ps if p != ""])
+        # server ids are bytes everywhere else (IServer.get_longname())
+        preferred_peers = tuple([p.strip().encode("ascii") for p in ps if p != ""])
 
         enabled_storage_plugins = (
             name.strip()
